@@ -26,6 +26,8 @@ MANIFEST = {
 }
 
 ULIMIT_KB = 2000000
+# further theorem files of C16 (each one re-checked and audited like C16Theorems.v)
+EXTRA_THEOREM_FILES = ["C16TheoremsParse.v"]
 
 
 def build(ctx):
@@ -55,6 +57,7 @@ def run(ctx):
                         "allocation is counted in appended elements in the model; bytes are observed on the Go side only"]
     exe, model = build(ctx)
     pr = ctx.proofs("c16", "C16Theorems.v")
+    prs = [pr] + [ctx.proofs("c16", f) for f in EXTRA_THEOREM_FILES]
     # correspondence
     n = ctx.n(5000, 100000)
     rc, cases, e = sh2(limited(exe, ["corr", "-seed", ctx.seed, "-n", n]), timeout=3000)
@@ -113,7 +116,8 @@ def run(ctx):
         ctx.violation({"kind": "correspondence-mismatch", "correspondence": "C16Model vs avc/hevc walkers (harness c16 corr)",
                        "mismatches": len(mism), "first_case": by_id.get(first[1], "")[:2000], "model_says": mism[0][:2000]},
                       "model/implementation disagree on %d cases" % len(mism), no_input=True)
-    ctx.proof_violation_if_broken(pr, "c16 search: %d evaluations, no failing input" % ctx.notes.get("search_evaluations", 0))
+    for p in prs:
+        ctx.proof_violation_if_broken(p, "c16 search: %d evaluations, no failing input" % ctx.notes.get("search_evaluations", 0))
     ctx.cov["rule"] = ("corr: outcome class (ok|err|panic|hang|overalloc) and value of the 15 modelled walkers on every generated "
                        "sample; distinct = distinct (function,input,arg,class,value) lines; search: every target must end in ok|err "
                        "with allocation <= 512*len+1MiB inside the wall-clock budget, each call in a worker subprocess")
